@@ -215,8 +215,7 @@ Slice == [ x \in ArrayBuckets |-> [label |-> clock.abs, level |-> bucket[x]] ]
 \* No listed property forbids it; such runs are failed runs.
 ImageProbeFails == i >= 1 /\ bucket["image"] = EMPTY
 
-EndStep ==
-  /\ pc = "run" /\ g > NG
+EndStepBody ==
   /\ eos' = Append(eos, bucket)
   /\ IF ImageProbeFails
        THEN /\ pc' = "failed"
@@ -229,6 +228,8 @@ EndStep ==
             /\ IF i = N - 1 THEN pc' = "finish" /\ UNCHANGED i
                             ELSE pc' = "begin" /\ i' = i + 1
   /\ UNCHANGED << cfg, g, m, clock, bucket, calls >>
+
+EndStep == pc = "run" /\ g > NG /\ EndStepBody
 
 Finish ==
   /\ pc = "finish"
